@@ -261,6 +261,29 @@ def task_vector_points():
             bad = "%s: %s" % (type(e).__name__, str(e)[:100])
         out.append(ob("%s:node-set-forms[%s]" % (fn, label), fn, FAILED if bad else PROVED, "B", "concrete", 0.0,
                       bad or "same result as the equivalent call", dict(kind="c11.nodeforms", label=label) if bad else None))
+    # degree-0 spaces whose knots are of DIFFERENT number classes (Fraction source, float target, and the reverse): the 3-point rule comes from an exact table (D53)
+    for label, Us, Ps, Ut in (("Fraction->float", [F(0), F(1, 2), F(1)], [F(1), F(2)], [0.0, 0.25, 1.0]), ("float->Fraction", [0.0, 1.0], [3.0], [F(0), F(1, 4), F(1, 2), F(1)])):
+        bad = None
+        try:
+            dst = curves.Curve(list(Ut))
+            err = dst.fit_curve(curves.Curve(list(Us), list(Ps)))
+            # the L2 projection onto piecewise constants is the mean of the source over each target span
+            cuts = sorted(set(F(x) for x in Ut))
+            want = []
+            for a, b in zip(cuts[:-1], cuts[1:]):
+                acc = F(0)
+                sk = sorted(set(F(x) for x in Us))
+                for (c, d), v in zip(zip(sk[:-1], sk[1:]), Ps):
+                    lo, hi = max(a, c), min(b, d)
+                    if hi > lo:
+                        acc += (hi - lo) * F(v)
+                want.append(acc / (b - a))
+            if any(abs(F(g) - w) > F(1, 10 ** 12) for g, w in zip(dst.ctrlpoints, want)) or float(err) < -1e-15:
+                bad = "control points %s, the span means are %s (error %s)" % (list(dst.ctrlpoints), [str(x) for x in want], err)
+        except Exception as e:
+            bad = "%s: %s" % (type(e).__name__, str(e)[:100])
+        out.append(ob("%s:degree0-mixed-knot-classes[%s]" % (fn, label), fn, FAILED if bad else PROVED, "B", "concrete", 0.0,
+                      bad or "the projection onto piecewise constants is the span mean", dict(kind="c11.nodeforms", label="deg0:" + label) if bad else None))
     return out + [{"_stats": dict(cases=len(out))}]
 
 
@@ -279,7 +302,8 @@ def tasks(tier, seed):
 def replay(o):
     w = o["witness"]
     if w.get("kind") == "c11.nodeforms":
-        r = [x for x in task_vector_points() if "id" in x and x["id"].endswith("node-set-forms[%s]" % w["label"])][0]
+        tail = ("degree0-mixed-knot-classes[%s]" % w["label"][5:]) if w["label"].startswith("deg0:") else ("node-set-forms[%s]" % w["label"])
+        r = [x for x in task_vector_points() if "id" in x and x["id"].endswith(tail)][0]
         return r["status"] == "failed", "same result as the equivalent call", r["detail"]
     if w.get("kind") == "c11.vector-nodes":
         r = [x for x in task_vector_points() if "id" in x and x["id"].endswith("with-nodes[%s]" % w["tag"])][0]
